@@ -19,7 +19,12 @@ def load_contracts(paths):
     for p in paths:
         with open(p) as f:
             text = f.read()
-        tree = ast.parse(text, filename=p)
+        try:
+            tree = ast.parse(text, filename=p)
+        except SyntaxError as e:
+            import sys
+            print(f"NOTE: contract file {p} does not parse ({e}); skipped", file=sys.stderr)
+            continue
         for node in tree.body:
             if isinstance(node, ast.Assign) and len(node.targets) == 1 and isinstance(node.targets[0], ast.Name):
                 try:
